@@ -241,6 +241,30 @@ struct World {
         st.note("Add x", n, r ? " +" : " =");
         st.cls("op-add");
     }
+    /** many addresses of the focus group from few case bytes (hosts/ports from a splitmix stream seeded by the case) */
+    void op_add_bulk()
+    {
+        size_t n = 24 + s.index(72);
+        uint64_t x = s.ConsumeIntegral<uint32_t>();
+        CNetAddr src = pool_source(s.range<unsigned>(0, 63));
+        bool spread_sources = s.boolean();
+        std::vector<CAddress> v;
+        for (size_t i = 0; i < n; ++i) {
+            x += 0x9e3779b97f4a7c15ULL;
+            uint64_t z = (x ^ (x >> 30)) * 0xbf58476d1ce4e5b9ULL;
+            z = (z ^ (z >> 27)) * 0x94d049bb133111ebULL;
+            z ^= z >> 31;
+            CService svc = pool_addr(focus_kind, focus_group, unsigned(z % 64), unsigned((z >> 8) % 4));
+            CAddress a(svc, NODE_NETWORK);
+            a.nTime = t(now - int64_t((z >> 16) % 7200));
+            known.insert(a.GetKey());
+            remember(svc);
+            if (spread_sources) { am->Add({a}, pool_source(unsigned((z >> 32) % 64)), 0s); } else v.push_back(a);
+        }
+        if (!v.empty()) am->Add(v, src, 0s);
+        st.note("AddBulk x", n);
+        st.cls("op-add-bulk");
+    }
     void op_good_many()
     {
         unsigned k = 16 + s.range<unsigned>(0, 80);
@@ -436,7 +460,8 @@ VERIF_TARGET(c37_addrman, init_c37, 8, 900,
         unsigned op = s.range<unsigned>(0, 31);
         w.n_ops++;
         st.mix(op);
-        if (op < 10) w.op_add();
+        if (op < 8) w.op_add();
+        else if (op < 10) w.op_add_bulk();
         else if (op < 14) w.op_good();
         else if (op < 16) w.op_good_many();
         else if (op < 18) { CService a = w.gen_service(); w.am->Attempt(a, s.boolean(), w.t(w.gen_time_arg())); st.cls("op-attempt"); st.note("Attempt"); }
